@@ -163,10 +163,13 @@ type SeenRequest struct {
 
 type Field2 struct{ Name, Value string }
 
-func (e *ClientEnv) RequestsSeen() []*SeenRequest {
+func (e *ClientEnv) RequestsSeen() []*SeenRequest { return SeenOn(e.P) }
+
+// SeenOn groups what a server-role peer received by stream.
+func SeenOn(p *Peer) []*SeenRequest {
 	var out []*SeenRequest
 	by := map[uint32]*SeenRequest{}
-	for _, f := range e.P.Frames() {
+	for _, f := range p.Frames() {
 		if f.Stream == 0 {
 			continue
 		}
